@@ -69,7 +69,50 @@ func vpTarPath(t *rapid.T, label string, links []string, root string) string {
 	return strings.Join(parts, "/")
 }
 
+// vpTarScenario builds archives around one link that is first used while harmless and then
+// re-pointed through a helper link ("s -> ." ; "t -> s/.."), with steps optionally dropped,
+// duplicated or separated by unrelated entries. Extraction state that is remembered across
+// entries (created directories, verified parents) is what such archives probe.
+func vpTarScenario(t *rapid.T, root string) ([]vpTarEntry, bool) {
+	pick := func(l string, xs ...string) string { return rapid.SampledFrom(xs).Draw(t, l) }
+	L := pick("L", "t", "a/t", "d")
+	S := pick("S", "s", "e", "b")
+	dir := pick("inner", "a", "c", "sub")
+	leaf := pick("leaf", "evil.txt", "sibling.txt", "outside/canary1", "outside/new", "x")
+	up := pick("up", "/..", "/../..", "/../outside", "/.")
+	steps := []vpTarEntry{
+		{typ: tar.TypeDir, name: dir, mode: 0755},
+		{typ: tar.TypeSymlink, name: L, link: pick("first", dir, ".", "./"+dir), mode: 0777},
+		{typ: pick2(t, "use1"), name: L + "/" + pick("use1name", "f", "pipe", "g/h"), content: "payload-first", mode: 0644},
+		{typ: tar.TypeSymlink, name: S, link: pick("helper", ".", "./.", dir+"/.."), mode: 0777},
+		{typ: tar.TypeSymlink, name: L, link: filepath.Base(S) + up, mode: 0777},
+		{typ: tar.TypeReg, name: L + "/" + leaf, content: "payload-evil", mode: 0644},
+	}
+	var es []vpTarEntry
+	for i, st := range steps {
+		if rapid.IntRange(0, 9).Draw(t, fmt.Sprintf("drop%d", i)) == 0 {
+			continue
+		}
+		es = append(es, st)
+		if rapid.IntRange(0, 4).Draw(t, fmt.Sprintf("noise%d", i)) == 0 {
+			es = append(es, vpTarEntry{typ: tar.TypeReg, name: pick(fmt.Sprintf("noisename%d", i), "n1", dir+"/n2", L+"/n3"), content: "payload-noise", mode: 0600})
+		}
+	}
+	if rapid.Bool().Draw(t, "swapHelper") && len(es) > 3 {
+		i := rapid.IntRange(0, len(es)-2).Draw(t, "swapAt")
+		es[i], es[i+1] = es[i+1], es[i]
+	}
+	return es, true
+}
+
+func pick2(t *rapid.T, l string) byte {
+	return rapid.SampledFrom([]byte{tar.TypeReg, tar.TypeReg, tar.TypeFifo, tar.TypeDir}).Draw(t, l)
+}
+
 func vpTarGen(t *rapid.T, root string) ([]vpTarEntry, bool) {
+	if rapid.IntRange(0, 3).Draw(t, "scenario") == 0 {
+		return vpTarScenario(t, root)
+	}
 	var es []vpTarEntry
 	var links []string
 	through := false
@@ -85,9 +128,21 @@ func vpTarGen(t *rapid.T, root string) ([]vpTarEntry, bool) {
 		switch rapid.IntRange(0, 9).Draw(t, "type") {
 		case 0, 1, 2:
 			e.typ = tar.TypeSymlink
-			e.link = rapid.SampledFrom([]string{".", "..", "../..", "a", "a/..", "../outside", "../outside/canary1", "sub/..", "d", "e", "b/../..", "/etc", "./.", "x/../.."}).Draw(t, "target")
-			if rapid.IntRange(0, 3).Draw(t, "targetFromPath") == 0 {
+			e.link = rapid.SampledFrom([]string{".", "..", "../..", "a", "a/..", "../outside", "../outside/canary1", "sub/..", "d", "e", "b/../..", filepath.Join(root, "outside"), "./.", "x/../.."}).Draw(t, "target")
+			switch rapid.IntRange(0, 5).Draw(t, "targetFrom") {
+			case 0:
 				e.link = vpTarPath(t, "ltarget", links, root)
+			case 1, 2: // target that passes through an earlier link: lexically inside, really elsewhere
+				if len(links) > 0 {
+					via := links[rapid.IntRange(0, len(links)-1).Draw(t, "tvia")]
+					// the target is relative to the link's own directory: use the link's base name
+					// when both live in the same directory, else climb from the new entry
+					e.link = filepath.Base(via) + rapid.SampledFrom([]string{"/..", "/../..", "/../outside", "/a", "/.", "/../sibling.txt"}).Draw(t, "tsuffix")
+				}
+			}
+			// sometimes re-point an existing link (same name, new target) after it was used
+			if len(links) > 0 && rapid.IntRange(0, 3).Draw(t, "repoint") == 0 {
+				e.name = links[rapid.IntRange(0, len(links)-1).Draw(t, "repointWhich")]
 			}
 			links = append(links, strings.TrimSuffix(e.name, "/"))
 		case 3:
